@@ -3,10 +3,15 @@
 proof phase   : Props/C09.v (Db/DbAtomic.v: for EVERY program run under with_connection, every statement position, every fault
                 kind, every prior content: file afterwards = pre-state or un-faulted post-state; exceptions named and refuted)
 fault enumeration on the implementation: `pygaps.parsing.sqlite.sqlite3` is replaced by a proxy that counts cursor.execute calls and
-                raises IntegrityError / InterfaceError / OperationalError at call k, or `os._exit`s a forked child at call k / just
-                before / just after commit; every public write operation x every k x three prior contents. Afterwards all tables are
-                read through a fresh connection: pre-state or post-state, PRAGMA foreign_key_check empty, retrieval works, retry.
-correspondence: the same faulted calls run on the model inside Coq (outcome, statements executed, pre/post, retry outcome, registry)
+                raises at call k an IntegrityError / InterfaceError / OperationalError or an exception the wrapper does not translate
+                (ProgrammingError, KeyError, TypeError, ValueError, AttributeError; KeyboardInterrupt / SystemExit, which are not
+                Exceptions), makes COMMIT itself raise, or `os._exit`s a forked child at call k / just before / just after commit;
+                every public write operation x every k x three prior contents. Afterwards - while the caller still holds the
+                exception, as inside an `except ... as e:` block - the connection object must be closed, an independent connection
+                must get the write lock at once, all tables are read through a fresh connection: pre-state or post-state, PRAGMA
+                foreign_key_check empty, retrieval works, and the retry succeeds.
+correspondence: the same faulted calls run on the model inside Coq (outcome, statements executed, pre/post, retry outcome, registry,
+                the calls made on the connection: connect / commit / rollback / close, in order)
 """
 import os
 import shutil
@@ -17,12 +22,18 @@ from props import c08
 MANIFEST = dict(
     text="Machine-checked (Coq 8.16, axiom-free) atomicity of with_connection in the statement-level model of parsing/sqlite.py: for every "
          "program (hence every public function), every prior database content, every statement position k and every fault kind (IntegrityError, "
-         "InterfaceError, OperationalError, process death at k, death just before / after commit) the file afterwards is the pre-state or the "
+         "InterfaceError, OperationalError, any other Exception, BaseException-only exceptions such as KeyboardInterrupt, process death at k, death just "
+         "before / after commit, COMMIT itself raising) the file afterwards is the pre-state or the "
          "complete post-state of the un-faulted call, a call that reports an error wrote nothing, and a retry from the restored state repeats the "
          "un-faulted call; NO ORPHANS: the invariant 'every property row has its owner and type, every isotherm its material / adsorbate / type, every "
          "isotherm property and data row its isotherm, keys unique' holds for a fresh file and is preserved by every statement program run under "
          "with_connection whatever fails or dies wherever - hence after ANY history of faulted calls (induction over program trees and histories); it is "
-         "decided inside Coq for the prepared contents of the run. Two exceptions are proved as refuted items: an IntegrityError raised inside the `try/except IntegrityError: pass` of "
+         "decided inside Coq for the prepared contents of the run. CONNECTION PROTOCOL: the try / except / else / finally statement of with_connection is "
+         "transcribed from the source on every run by a fail-closed translator (Gen/DbShapeGen.v) and interpreted with the semantics of Python's try statement "
+         "(Db/DbConn.v); proved: the model's with_conn IS that interpretation (same outcome, file, registries, statement count for all programs, faults, crash "
+         "points), and on every path the process survives the connection is closed exactly once as the last call made on it, COMMIT iff normal return - no fault "
+         "kind leaves a connection (and its write lock) behind; the calls connect / commit / rollback / close are compared with the implementation on every "
+         "faulted call, and after every fault - while the exception is still referenced - an independent connection must get the write lock at once. Two exceptions are proved as refuted items: an IntegrityError raised inside the `try/except IntegrityError: pass` of "
          "adsorbate/material overwrite is swallowed (old AND new properties are committed), and the in-memory registries are not rolled back, so "
          "the retry of an isotherm upload whose auto-insert was rolled back is refused. The model's transaction semantics are tied to the code on "
          "every run by injecting the same faults into the implementation (module proxy, forked child with os._exit) and comparing with the model "
@@ -31,7 +42,37 @@ MANIFEST = dict(
          "loss, no torn pages, no concurrent writers); the harness proxy counting cursor.execute calls.",
     technique="Coq proof by induction over program trees (all statements x all faults) + exhaustive fault injection on the implementation compared with the model")
 
-EXC = {'IntegrityError': 'EIntegrity', 'InterfaceError': 'EInterface', 'OperationalError': 'EOperational'}
+EXTRA_TARGETS = ['Db/DbShow.vo']
+EXC = {'IntegrityError': 'EIntegrity', 'InterfaceError': 'EInterface', 'OperationalError': 'EOperational',
+       # kinds with_connection does not translate: other subclasses of Exception ...
+       'ProgrammingError': '(EExc 1)', 'KeyError': '(EExc 2)', 'TypeError': '(EExc 3)', 'ValueError': '(EExc 4)', 'AttributeError': '(EExc 5)',
+       # ... and exceptions that are not Exceptions
+       'KeyboardInterrupt': '(EBase 1)', 'SystemExit': '(EBase 2)'}
+TRANSLATED = ['IntegrityError', 'InterfaceError', 'OperationalError']       # the kinds of the property text: every position, every run
+OTHER_KINDS = ['ProgrammingError', 'KeyError', 'TypeError', 'ValueError', 'AttributeError', 'KeyboardInterrupt', 'SystemExit']
+COMMIT_KINDS = ['OperationalError', 'IntegrityError', 'KeyboardInterrupt']
+OC = dict(c08.OC)
+for _n, _t in EXC.items():
+    if _t.startswith('(EExc'):
+        OC[100 + int(_t.split()[1].rstrip(')'))] = 'other:' + _n
+    if _t.startswith('(EBase'):
+        OC[200 + int(_t.split()[1].rstrip(')'))] = 'other:' + _n
+EV = {'connect': 1, 'commit': 2, 'rollback': 3, 'close': 4}
+BUSY_TIMEOUT = 0.25      # s; busy timeout of the library's connections during the campaign (nothing ever waits on a tree where the property holds)
+
+
+def lock_probe(path):
+    """can an independent connection take the write lock NOW?  True, or the error text"""
+    import sqlite3
+    c = sqlite3.connect(path, timeout=0.05, isolation_level=None)
+    try:
+        c.execute('BEGIN EXCLUSIVE')
+        c.execute('ROLLBACK')
+        return True
+    except sqlite3.OperationalError as e:
+        return str(e)
+    finally:
+        c.close()
 
 
 def prep_ops():
@@ -83,24 +124,45 @@ def write_ops(iso_t):
     ]
 
 
-def snap(raw, I):
-    return (c08.encode(raw, I), raw['_counters'])
+def snap(raw, I=None):
+    """the content of a file, for equality tests (pre-state / post-state): every row of every table and the AUTOINCREMENT counters"""
+    return (tuple(tuple(raw[t]) for t in c08.TABLES), tuple(raw['_counters']))
 
 
 def classify(name, op, fault, kind, ctx):
     if kind == 'neither-pre-nor-post' and op['k'] == 'EntUp' and op['ow'] and fault[0] == 'raise' and fault[2] == 'IntegrityError' and fault[1] in (3, 4):
         return 'C09:overwrite-swallows-IntegrityError'
-    if kind == 'retry' and op['k'] == 'IsoUp' and (op['am'] or op['aa']):
-        if fault[0] == 'raise' and ctx.get('registry_changed'):
+    if kind == 'retry' and op['k'] == 'IsoUp' and (op['am'] or op['aa']) and ctx.get('retry_outcome') == 'ParsingError' and ctx.get('lock_free'):
+        if fault[0] in ('raise', 'commit_raise') and ctx.get('registry_changed'):
             return 'C09:retry-after-rolled-back-autoinsert'
-        if fault[0] != 'raise' and ctx.get('in_file_not_in_fresh_registry'):
+        if fault[0] not in ('raise', 'commit_raise') and ctx.get('in_file_not_in_fresh_registry'):
             return 'C09:registry-not-loaded-from-file'
-    return 'C09:unclassified:%s:%s:%s' % (kind, op['k'], fault[0] if fault[0] != 'raise' else fault[2])
+    return 'C09:unclassified:%s:%s:%s' % (kind, op['k'], fault[2] if fault[0] == 'raise' else fault[0] + ':' + fault[1] if fault[0] == 'commit_raise' else fault[0])
+
+
+def in_process(fault):
+    return fault[0] in ('raise', 'commit_raise')
+
+
+def faulted_call(im, op, path, I, fault):
+    """one faulted call in this process. The exception stays referenced (returned as `held`), as in a caller's `except ... as e:` block"""
+    im.keep_exc = True
+    im.px.fault = fault
+    try:
+        oc, n = c08.apply_op(im, op, path, I)[:2]
+    finally:
+        im.px.fault = None
+        im.keep_exc = False
+    held = im.last_exc
+    return oc, n, [EV[e] for e in im.px.events], all(c.closed for c in im.px.conns), held
 
 
 def explore(rep, tier, seed):
-    work = os.path.join(vlib.SCRATCH, 'c09_%d' % os.getpid())
+    import random
+    rnd = random.Random(seed)
+    work = c08.scratch_dir('c09_%d' % os.getpid())
     im = c08.Impl(work)
+    im.px.timeout = BUSY_TIMEOUT
     I = c08.Intern()
     cases = []
     try:
@@ -129,29 +191,34 @@ def explore(rep, tier, seed):
                     os.remove(p + ext)
             shutil.copyfile(P[pname]['path'], p)
             return p
-        kinds = ['IntegrityError', 'InterfaceError', 'OperationalError']
         for name, op, contents in ops:
             if op['k'] == 'IsoDel':
                 op = dict(op); op['target'] = iso_t_id
             for pname in contents:
-                # un-faulted run: number of statements, post-state
+                # un-faulted run: number of statements, post-state, the calls made on the connection
                 restore(pname); path = copy(pname)
                 pre = snap(c08.raw_dump(path, ro=False), I)
                 oc0, n0, term, _, _ = c08.apply_op(im, op, path, I)
+                ev0, closed0 = [EV[e] for e in im.px.events], all(c.closed for c in im.px.conns)
                 post = snap(c08.raw_dump(path, ro=False), I)
                 assert oc0 == 'Ok' and post != pre, (name, pname, oc0)
-                faults = [('raise', k, e) for k in range(1, n0 + 1) for e in kinds]
+                if ev0 != [1, 2, 4] or not closed0:
+                    rep.failure('C09:unclassified:connection-protocol:%s' % op['k'], '%s on %s content without any fault: calls on the connection %s, closed=%s'
+                                % (name, pname, ev0, closed0), {'operation': name, 'op': c08._plain(op), 'prior_content': pname, 'fault': ['none'], 'kind': 'connection-protocol'})
+                # every position x the kinds of the property text; every position x further kinds the wrapper does not translate
+                # (all of them in the thorough tier, two per operation and content otherwise); a failing COMMIT
+                others = OTHER_KINDS if tier == 'thorough' else rnd.sample(OTHER_KINDS, 2)
+                faults = [('raise', k, e) for k in range(1, n0 + 1) for e in TRANSLATED + list(others)]
+                faults += [('commit_raise', e) for e in (COMMIT_KINDS if tier == 'thorough' else [COMMIT_KINDS[0], rnd.choice(COMMIT_KINDS[1:])])]
                 ks = list(range(1, n0 + 1)) if tier == 'thorough' else sorted({1, 2, (n0 + 1) // 2, n0 - 1, n0} & set(range(1, n0 + 1)))
                 faults += [('exit', k) for k in ks] + [('exit_before_commit',), ('exit_after_commit',)]
                 for fault in faults:
                     restore(pname); path = copy(pname)
                     reg_before = ({x.name for x in im.AL}, {x.name for x in im.ML})
-                    if fault[0] == 'raise':
-                        im.px.fault = fault
-                        try:
-                            oc, n = c08.apply_op(im, op, path, I)[:2]
-                        finally:
-                            im.px.fault = None
+                    held = None
+                    events, closed = None, None
+                    if in_process(fault):
+                        oc, n, events, closed, held = faulted_call(im, op, path, I, fault)
                     else:
                         pid = os.fork()
                         if pid == 0:                       # the process that dies
@@ -163,12 +230,15 @@ def explore(rep, tier, seed):
                         _, status = os.waitpid(pid, 0)
                         code = os.WEXITSTATUS(status)
                         oc, n = ('died' if code in (40, 41, 42) else 'survived:%d' % code), None
+                    # `held` is still referenced here: we are where the caller's `except ... as e:` block would be
+                    lock_free = lock_probe(path)
                     raw = c08.raw_dump(path, ro=False)            # a fresh connection: SQLite rolls a hot journal back here
                     now = snap(raw, I)
                     reg_after = ({x.name for x in im.AL}, {x.name for x in im.ML})
-                    case = dict(name=name, op=op, prep=pname, fault=fault, term=term, oc=oc, n=n, oc0=oc0, n0=n0,
-                                is_pre=now == pre, is_post=now == post, fk=raw['_fk'], reg_same=reg_after == reg_before, ctx={})
+                    case = dict(name=name, op=op, prep=pname, fault=fault, term=term, oc=oc, n=n, oc0=oc0, n0=n0, events=events, closed=closed,
+                                lock_free=lock_free, is_pre=now == pre, is_post=now == post, fk=raw['_fk'], reg_same=reg_after == reg_before, ctx={})
                     case['ctx']['registry_changed'] = reg_after != reg_before
+                    case['ctx']['lock_free'] = lock_free is True
                     # everything stored before remains retrievable
                     try:
                         im.S.materials_from_db(db_path=path, verbose=False); im.S.isotherms_from_db(db_path=path, verbose=False)
@@ -177,19 +247,20 @@ def explore(rep, tier, seed):
                         case['retrievable'] = repr(e)[:200]
                     # retry (after process death: in a new process, i.e. with the import-time registries)
                     if case['is_pre']:
-                        if fault[0] != 'raise':
+                        if not in_process(fault):
                             im.reset_registry()
                             if op['k'] == 'IsoUp':
-                                tabs = now[0]
-                                mats = {r[1] for r in tabs[3]}; adsn = {r[1] for r in tabs[0]}
-                                import pygaps
+                                mats = {r[1] for r in raw['materials']}; adsn = {r[1] for r in raw['adsorbates']}
                                 aname = op['iso']['ads']
                                 case['ctx']['in_file_not_in_fresh_registry'] = (
-                                    (op['am'] and I.atom(op['iso']['mat']) in mats and op['iso']['mat'] not in {x.name for x in im.ML}) or
-                                    (op['aa'] and I.atom(aname) in adsn and aname not in {x.name for x in im.AL}))
+                                    (op['am'] and op['iso']['mat'] in mats and op['iso']['mat'] not in {x.name for x in im.ML}) or
+                                    (op['aa'] and aname in adsn and aname not in {x.name for x in im.AL}))
                         oc2 = c08.apply_op(im, op, path, I)[0]
                         case['retry'] = oc2
+                        case['ctx']['retry_outcome'] = oc2
                         case['retry_post'] = snap(c08.raw_dump(path, ro=False), I) == post
+                    held = None                                   # the caller's handler ends here
+                    im.last_exc = None
                     cases.append(case)
     finally:
         im.close()
@@ -203,6 +274,7 @@ def explore(rep, tier, seed):
     def flt(f):
         if f[0] == 'raise': return '(Some (%d%%nat, %s)) CNone' % (f[1], EXC[f[2]])
         if f[0] == 'exit': return '(Some (%d%%nat, ECrash)) CNone' % f[1]
+        if f[0] == 'commit_raise': return 'None (CCommitRaises %s)' % EXC[f[1]]
         return 'None ' + ('CBeforeCommit' if f[0] == 'exit_before_commit' else 'CAfterCommit')
     terms = ['(show_fault %s reg0 %s db_%s reg_%s)' % (flt(c['fault']), c['term'], c['prep'], c['prep']) for c in cases]
     model = None
@@ -216,15 +288,21 @@ def explore(rep, tier, seed):
     nontrivial = set()
     for ci, c in enumerate(cases):
         f = c['fault']
-        fk = f[2] if f[0] == 'raise' else f[0]
+        fk = f[2] if f[0] == 'raise' else 'commit raises ' + f[1] if f[0] == 'commit_raise' else f[0]
         hist[fk] = hist.get(fk, 0) + 1
         replay = {'operation': c['name'], 'op': c08._plain(c['op']), 'prior_content': c['prep'], 'fault': list(f)}
 
         def fail(kind, what):
             rep.failure(classify(c['name'], c['op'], f, kind, c['ctx']), '%s on %s content, fault %s: %s' % (c['name'], c['prep'], list(f), what), dict(replay, kind=kind))
         # property oracle on the implementation
-        if f[0] != 'raise' and c['oc'] != 'died':
+        if not in_process(f) and c['oc'] != 'died':
             rep.broken_obligation('harness:child-did-not-die', replay)
+        # the connection: closed when the call ends (also while the caller holds the exception), no lock left behind
+        if in_process(f) and not c['closed']:
+            fail('connection-not-closed', 'the call ended with %s but its connection object is not closed (calls made on it: %s)' % (c['oc'], c['events']))
+        if c['lock_free'] is not True:
+            fail('lock-held', 'right after the failed call (caller saw %s, exception still referenced) an independent connection cannot take the write lock: %s'
+                 % (c['oc'], c['lock_free']))
         if not (c['is_pre'] or c['is_post']):
             fail('neither-pre-nor-post', 'the file afterwards is neither the state before the call nor the complete effect (caller saw %s)' % c['oc'])
         if c['oc'] not in ('Ok', 'died') and not c['is_pre']:
@@ -240,39 +318,43 @@ def explore(rep, tier, seed):
         if c['is_pre'] and (c.get('retry') != 'Ok' or not c.get('retry_post')):
             fail('retry', 'repeating the call after the failure -> %s (file %s the un-faulted effect)' % (c.get('retry'), 'has' if c.get('retry_post') else 'lacks'))
         elif c['is_pre']:
-            nontrivial.add((c['name'], c['prep'], fk, f[1] if len(f) > 1 else 0))
+            nontrivial.add((c['name'], c['prep'], fk, f[1] if f[0] in ('raise', 'exit') else 0))
         # correspondence with the model
         if model is not None:
             m = model[ci]
-            moc, mn, mpre, mpost, moc0, mn0, moc2, mretry_post, mreg = m
-            ok = (c08.OC.get(moc) == c['oc'] and (c['n'] is None or mn == c['n']) and bool(mpre) == c['is_pre'] and bool(mpost) == c['is_post']
-                  and c08.OC.get(moc0) == c['oc0'] and mn0 == c['n0'])
+            moc, mn, mpre, mpost, moc0, mn0, moc2, mretry_post, mreg, mclosed = m[:10]
+            mev = m[10:]
+            ok = (OC.get(moc) == c['oc'] and (c['n'] is None or mn == c['n']) and bool(mpre) == c['is_pre'] and bool(mpost) == c['is_post']
+                  and OC.get(moc0) == c['oc0'] and mn0 == c['n0'])
             if c['is_pre'] and ok:
-                ok = c08.OC.get(moc2) == c.get('retry') and bool(mretry_post) == bool(c.get('retry_post'))
-            if f[0] == 'raise' and ok:
-                ok = bool(mreg) == c['reg_same']
+                ok = OC.get(moc2) == c.get('retry') and bool(mretry_post) == bool(c.get('retry_post'))
+            if in_process(f) and ok:
+                ok = bool(mreg) == c['reg_same'] and bool(mclosed) == c['closed'] and mev == c['events']
             if not ok:
                 n_dis += 1
                 if n_dis <= 5:
                     rep.broken_obligation('correspondence:DbAtomic-vs-implementation',
-                                          dict(replay, model=m, implementation=[c['oc'], c['n'], c['is_pre'], c['is_post'], c['oc0'], c['n0'], c.get('retry'), c.get('retry_post'), c['reg_same']]))
+                                          dict(replay, model=m, implementation=[c['oc'], c['n'], c['is_pre'], c['is_post'], c['oc0'], c['n0'], c.get('retry'), c.get('retry_post'), c['reg_same'], c['closed'], c['events']]))
     rep.cov['evaluations'] += len(cases)
     rep.cov['distinct_nontrivial'] += len(nontrivial)
     rep.cov['rule'] = ('every public write operation (20 call shapes incl. overwrite / auto-insert / nested uploads) x prior content {fresh db_create file, '
-                       'file holding the targets, populated file} x EVERY statement position k x {IntegrityError, InterfaceError, OperationalError}; process death '
-                       '(forked child, os._exit) at %s positions, just before and just after commit. non-trivial = distinct (operation, content, fault kind, k) whose '
-                       'file was the pre-state and whose retry then produced the complete un-faulted effect' % ('all' if tier == 'thorough' else 'up to 5'))
+                       'file holding the targets, populated file} x EVERY statement position k x {IntegrityError, InterfaceError, OperationalError, + %s exception kinds '
+                       'with_connection does not translate (of ProgrammingError, KeyError, TypeError, ValueError, AttributeError, KeyboardInterrupt, SystemExit)}; COMMIT '
+                       'itself raising; process death (forked child, os._exit) at %s positions, just before and just after commit. After every fault, with the exception '
+                       'still referenced: connection closed, write lock free for an independent connection, file = pre- or post-state, retry. non-trivial = distinct '
+                       '(operation, content, fault kind, k) whose file was the pre-state and whose retry then produced the complete un-faulted effect'
+                       % (('all 7', 'all') if tier == 'thorough' else ('2 (drawn per operation and content) of the 7', 'up to 5')))
     rep.cov['input_distribution'] = hist
     rep.cov['correspondence'] = {'cases': len(cases), 'disagreements': n_dis,
                                  'what': 'Db/DbModel.v with_conn under the same fault (vm_compute) vs implementation: outcome class, statements executed, pre/post state, '
-                                         'un-faulted outcome and statement count, retry outcome and effect, registry change'}
+                                         'un-faulted outcome and statement count, retry outcome and effect, registry change, connection closed, calls made on the connection (connect / commit / rollback / close)'}
     rep.cov['samples'] += [{'operation': c['name'], 'content': c['prep'], 'fault': list(c['fault']), 'outcome': c['oc'], 'pre': c['is_pre'], 'post': c['is_post'], 'retry': c.get('retry')}
                            for c in cases[::max(1, len(cases) // 6)][:6]]
     return cases
 
 
 def run(rep, tier, seed):
-    vlib.standard_proof_phase(rep, 'C09', extra_targets=['Db/DbShow.vo'])
+    vlib.standard_proof_phase(rep, 'C09', extra_targets=EXTRA_TARGETS)
     explore(rep, tier, seed)
     if rep.broken and not rep.violations and tier != 'thorough':
         explore(rep, 'thorough', seed + 1)
@@ -286,8 +368,9 @@ def replay(d):
     import logging
     logging.disable(logging.CRITICAL)
     r = d['replay']
-    work = os.path.join(vlib.SCRATCH, 'c09_replay_%d' % os.getpid())
+    work = c08.scratch_dir('c09_replay_%d' % os.getpid())
     im = c08.Impl(work)
+    im.px.timeout = BUSY_TIMEOUT
     I = c08.Intern()
     try:
         preps, iso_t = prep_ops()
@@ -300,10 +383,12 @@ def replay(d):
             op = dict(op); op['target'] = c08.make_iso(iso_t).iso_id
         pre = snap(c08.raw_dump(path, ro=False), I)
         f = tuple(r['fault'])
-        if f[0] == 'raise':
-            im.px.fault = f
-            print('faulted call ->', c08.apply_op(im, op, path, I)[:2])
-            im.px.fault = None
+        held = None
+        if f[0] == 'none':
+            print('call ->', c08.apply_op(im, op, path, I)[:2], 'calls on the connection', im.px.events, 'closed', all(c.closed for c in im.px.conns))
+        elif in_process(f):
+            oc, n, events, closed, held = faulted_call(im, op, path, I, f)
+            print('faulted call ->', (oc, n), '; calls made on the connection:', [k for e in events for k, v in EV.items() if v == e], '; connection closed:', closed)
         else:
             pid = os.fork()
             if pid == 0:
@@ -313,12 +398,14 @@ def replay(d):
                     os._exit(0)
             print('child exit status', os.WEXITSTATUS(os.waitpid(pid, 0)[1]))
             im.reset_registry()
+        print('independent connection can take the write lock while the exception is referenced:', lock_probe(path))
         now = snap(c08.raw_dump(path, ro=False), I)
         print('file equals pre-state:', now == pre)
-        for i, (a, b) in enumerate(c08.table_diff(pre[0], now[0])):
-            if a or b:
-                print(' table', c08.TABLES[i], 'removed', a, 'added', b)
-        print('retry ->', c08.apply_op(im, op, path, I)[0])
+        for t, a, b in zip(c08.TABLES, pre[0], now[0]):
+            if a != b:
+                print(' table', t, 'removed', sorted(set(a) - set(b), key=repr)[:5], 'added', sorted(set(b) - set(a), key=repr)[:5])
+        print('retry (exception still referenced) ->', c08.apply_op(im, op, path, I)[0])
+        held = None
     finally:
         im.close()
     print('kind of failure recorded:', r.get('kind'))
